@@ -80,7 +80,7 @@ def correspondence(ctx):
     lines, refs = [], []
     for i in range(n):
         fam = FAMS[i % 6]
-        k = int(rng.integers(1, 13)) if fam != 'CDD' else int(rng.integers(1, 7))
+        k = int(rng.integers(0 if fam in ('PDD', 'UDD') else 1, 13)) if fam != 'CDD' else int(rng.integers(0, 7))   # (PDD_0 = UDD_0 = CDD_0 = free induction decay; CPMG_0 is not defined)
         z = float(rng.uniform(-30, 30)) if i % 5 else float(10.0**rng.uniform(-3, 2))
         lines.append(f'analytic {fam} {k} {f2b(z)}')
         refs.append(py_value(fam, z, k))
@@ -164,7 +164,7 @@ def search(ctx, deep=False):
          ('thorough', True): 2000}[(ctx.tier, deep)]
     for i in range(n):
         fam = FAMS[i % 6]
-        k = int(rng.integers(1, 13)) if fam != 'CDD' else int(rng.integers(1, 7))
+        k = int(rng.integers(0 if fam in ('PDD', 'UDD') else 1, 13)) if fam != 'CDD' else int(rng.integers(0, 7))   # (PDD_0 = UDD_0 = CDD_0 = free induction decay; CPMG_0 is not defined)
         tau = float(10.0**rng.uniform(-1, 1.5)) if i % 5 else float(10.0**rng.uniform(-9, 11))
         om = np.sort(10.0**rng.uniform(-1.5, 1.2, 12))/tau*rng.uniform(0.5, 5)
         # stay away from the removable singularities of PDD / CPMG
